@@ -497,3 +497,59 @@ fn verif_native_c01_grid_roundtrip() {
     }
     assert!(fails.is_empty(), "C01.N.grid.roundtrip: FAILSET{{{}}} {} of {} checks fail, first: {:?}", ids.join(","), fails.len(), n, &fails[..fails.len().min(4)]);
 }
+
+//@n {"id":"C09.N.proj.strings","props":["C09"],"tier":"quick","bound":"all sequences of 1 to 4 tokens over a 16-token PROJ vocabulary (proj=pipeline / merc / utm / empty, step, inv, omit_fwd, zone=, k=, a=, rf=, b=, ellps=, init=, a comment, a leading +) = 69904 strings, each through parse_proj and through Plain::op (which runs parse_proj on every definition) and, when it instantiates, applied to 2 tuples in both directions","text":"no definition string in PROJ syntax makes the library panic: translation and instantiation return an error value or an operator; applying the operator never panics"}
+#[test]
+fn verif_native_c09_proj_strings() {
+    let vocab = ["step", "inv", "proj=merc", "proj=pipeline", "proj=utm", "zone=32", "k=0.9996", "a=6378137", "rf=298.257", "b=6356752", "ellps=GRS80", "omit_fwd", "+proj=tmerc", "init=epsg:4326", "#note", "proj="];
+    // silence the panic messages of THIS test's thread only (other tests running in parallel need theirs)
+    let prev = std::panic::take_hook();
+    std::panic::set_hook(Box::new(move |info| {
+        if !std::thread::current().name().map(|n| n.contains("verif_native_c09_proj_strings")).unwrap_or(false) {
+            prev(info);
+        }
+    }));
+    let mut sites: std::collections::BTreeMap<String, String> = std::collections::BTreeMap::new();
+    let mut n = 0usize;
+    let mut ctx = Plain::default();
+    let mut idx = vec![0usize];
+    loop {
+        let def: String = idx.iter().map(|i| vocab[*i]).collect::<Vec<_>>().join(" ");
+        n += 1;
+        let r = std::panic::catch_unwind(std::panic::AssertUnwindSafe(|| {
+            let _ = crate::token::parse_proj(&def);
+            if let Ok(op) = ctx.op(&def) {
+                let mut data = [Coor4D::geo(55.0, 12.0, 0.0, 2020.0), Coor4D([f64::NAN, 1.0, 2.0, 3.0])];
+                let _ = ctx.apply(op, Fwd, &mut data);
+                let _ = ctx.apply(op, Inv, &mut data);
+            }
+        }));
+        if let Err(p) = r {
+            let msg = p.downcast_ref::<String>().cloned().or_else(|| p.downcast_ref::<&str>().map(|s| s.to_string())).unwrap_or_default();
+            let generic: String = msg.split(|c: char| c.is_ascii_digit()).next().unwrap_or("").chars().filter(|c| c.is_ascii_alphabetic() || *c == ' ').collect();
+            sites.entry(generic.trim().replace(' ', "-")).or_insert(def.clone());
+            ctx = Plain::default();
+        }
+        // next sequence
+        let mut k = idx.len();
+        loop {
+            if k == 0 {
+                idx = vec![0; idx.len() + 1];
+                break;
+            }
+            k -= 1;
+            if idx[k] + 1 < vocab.len() {
+                idx[k] += 1;
+                for j in (k + 1)..idx.len() {
+                    idx[j] = 0;
+                }
+                break;
+            }
+        }
+        if idx.len() > 4 {
+            break;
+        }
+    }
+    let ids: Vec<String> = sites.keys().cloned().collect();
+    assert!(sites.is_empty(), "C09.N.proj.strings: FAILSET{{{}}} {} panic sites in {} definitions: {:?}", ids.join(","), sites.len(), n, sites);
+}
